@@ -394,8 +394,22 @@ def ref_eq(i, fr, st, pc, a, t, fn, r):
             x = i.read_ptr(st, x)
         if isinstance(y, Ptr) and y.sl is None:
             y = i.read_ptr(st, y)
+    neg = fn["name"] == "ne"
     if isinstance(x, W) and isinstance(y, W):
-        return _ret(i, st, pc, w_eq(x, y))
+        e = w_eq(x, y)
+        return _ret(i, st, pc, b_not(e) if neg else e)
+    if isinstance(x, Agg) and isinstance(y, Agg) and x.key == y.key:
+        cands = [b for b, sty, tr in i.facts.trait_impl_methods("std::cmp::PartialEq") if sty.get("path") == x.key and b["name"] == "eq"]
+        if cands:
+            c1, c2 = new_cell(), new_cell()
+            st.mem[c1], st.mem[c2] = x, y
+            if cands[0]["key"] in i.opaque_fns:
+                outs = i.opaque_fns[cands[0]["key"]](i, fr, [Ptr(c1, ()), Ptr(c2, ())], st, pc, t)
+            else:
+                outs = i.call_mir(cands[0], cands[0]["mir"], [Ptr(c1, ()), Ptr(c2, ())], st, dict(fr.env), fr.depth + 1, pc)
+            if not neg:
+                return outs
+            return [Outcome("return", o.state, o.pc, b_not(o.value)) if o.kind == "return" else o for o in outs]
     raise Undecided("equality of %r and %r" % (x, y))
 
 
@@ -671,6 +685,15 @@ def str_iter_pred(i, fr, st, pc, a, t, fn, r):
 
 def call_closure(i, fr, st, pc, clos, args):
     """call a closure value with already-evaluated arguments -> outcomes"""
+    if isinstance(clos, Opaque) and clos.kind == "fndef":
+        # a function item used as a closure (e.g. `.map(Cube::nth_var)`)
+        key = clos.data[0]
+        if key in i.opaque_fns:
+            return i.opaque_fns[key](i, fr, list(args), st, pc, {"span": None, "snippet": None})
+        body = i.facts.body(key)
+        if body is None:
+            raise Undecided("call of non-local function item %s" % key)
+        return i.call_mir(body, body["mir"], list(args), st, dict(fr.env), fr.depth + 1, pc)
     if not (isinstance(clos, Agg) and clos.kind == "closure"):
         raise Undecided("call of non-closure %r" % (clos,))
     body = i.facts.body(clos.key)
@@ -873,6 +896,7 @@ TABLE = {
     "core::slice::<impl [T]>::last": slice_last,
     "std::option::Option::<T>::unwrap": option_unwrap,
     "std::cmp::impls::<impl std::cmp::PartialEq<&B> for &A>::eq": ref_eq,
+    "std::cmp::impls::<impl std::cmp::PartialEq<&B> for &A>::ne": ref_eq,
     "std::vec::Vec::<T, A>::retain": vec_retain,
     "std::slice::<impl [T]>::sort": seq_event("sort"),
     "core::slice::<impl [T]>::sort_unstable": seq_event("sort"),
@@ -1976,6 +2000,23 @@ _old_multi2 = iter_next_multi
 
 def iter_next_multi(i, fr, st, pc, it):  # noqa: F811
     k = it.kind if isinstance(it, Opaque) else None
+    if k == "chain" and _has_split_adaptor(it):
+        a_, b_ = it.data
+        res, others = [], []
+        if a_ is not None:
+            subs, oth = iter_next_multi(i, fr, st, pc, a_)
+            others.extend(oth)
+            for s1, p1, a2, item in subs:
+                if item is not None:
+                    res.append((s1, p1, Opaque("chain", (a2, b_)), item))
+                else:
+                    subs2, oth2 = iter_next_multi(i, fr, s1, p1, _as_iter(b_))
+                    others.extend(oth2)
+                    for s2, p2, b2, item2 in subs2:
+                        res.append((s2, p2, Opaque("chain", (None, b2)), item2))
+            return res, others
+        subs2, oth2 = iter_next_multi(i, fr, st, pc, _as_iter(b_))
+        return [(s2, p2, Opaque("chain", (None, b2)), item2) for s2, p2, b2, item2 in subs2], oth2
     if k == "copied" and _has_split_adaptor(it):
         subs, others = iter_next_multi(i, fr, st, pc, it.data[0])
         res = []
@@ -2068,6 +2109,107 @@ TABLE.update({
 for _k in list(TABLE):
     if TABLE[_k] is generic_next:
         TABLE[_k] = multi_next
+
+
+# ---------------------------------------------------------------------------------- corrections after refactor selftest
+def generic_all_any(i, fr, st, pc, a, t, fn, r):
+    """Iterator::all / any on any modelled iterator: conjunction / disjunction of the closure results
+    (strings: an unknown predicate of the text)"""
+    src = a[0]
+    itv = i.read_ptr(st, src) if isinstance(src, Ptr) else src
+    if isinstance(itv, Opaque) and itv.kind == "str_iter":
+        return str_iter_pred(i, fr, st, pc, a, t, fn, r)
+    is_any = fn["name"] == "any"
+    clos = a[1]
+    outs = []
+    work = [(st, pc, itv, wbool(not is_any))]
+    while work:
+        s, p, cur, acc = work.pop()
+        # short-circuit on a decided accumulator, like the real adaptor
+        if isinstance(acc, W) and acc.val is not None and bool(acc.val) == is_any:
+            if isinstance(src, Ptr):
+                i.write_ptr(s, src, cur)
+            outs.append(Outcome("return", s, p, acc))
+            continue
+        subs, others = iter_next_multi(i, fr, s, p, cur)
+        outs.extend(others)
+        for s1, p1, cur2, item in subs:
+            if item is None:
+                if isinstance(src, Ptr):
+                    i.write_ptr(s1, src, cur2)
+                outs.append(Outcome("return", s1, p1, acc))
+                continue
+            for o in call_closure(i, fr, s1, p1, clos, [item]):
+                if o.kind != "return":
+                    outs.append(o)
+                    continue
+                v = o.value
+                if isinstance(v, W) and v.val is not None:
+                    acc2 = b_and(acc, v) if not is_any else b_not(b_and(b_not(acc), b_not(v)))
+                    work.append((o.state, o.pc, cur2, acc2))
+                else:
+                    # the real adaptor stops at the first deciding element: one path per decision
+                    s2 = o.state.fork()
+                    stop_cond = b_not(v) if not is_any else v
+                    if isinstance(src, Ptr):
+                        i.write_ptr(s2, src, cur2)
+                    outs.append(Outcome("return", s2, o.pc + (stop_cond,), wbool(is_any)))
+                    work.append((o.state, o.pc + (b_not(stop_cond),), cur2, acc))
+        if len(work) + len(outs) > i.max_paths:
+            raise Undecided("path budget in all/any")
+    return outs
+
+
+def it_collect_typed(i, fr, st, pc, a, t, fn, r):
+    """collect(): into a Vec by default, into a String when the target type says so"""
+    args = (r or fn).get("args") or []
+    into_string = any(isinstance(x, dict) and x.get("k") == "adt" and x.get("path") == "std::string::String" for x in args[-1:])
+    outs = it_collect(i, fr, st, pc, a, t, fn, r)
+    if not into_string:
+        return outs
+    res = []
+    for o in outs:
+        if o.kind != "return":
+            res.append(o)
+            continue
+        toks = ()
+        for e in i.slice_elems(o.state, o.value):
+            toks += string_tokens(i, o.state, e)
+        res.append(Outcome("return", o.state, o.pc, Opaque("string", (toks,))))
+    return res
+
+
+def string_write_fmt(i, fr, st, pc, a, t, fn, r):
+    sp, fa = a
+    s = i.read_ptr(st, sp)
+    if not (isinstance(s, Opaque) and s.kind == "string"):
+        raise Undecided("write_fmt on %r" % (s,))
+    i.write_ptr(st, sp, Opaque("string", (s.data[0] + render(fa.data[0], fa.data[1]),)))
+    return _ret(i, st, pc, Agg("adt", RESULT, 0, (UNIT,)))
+
+
+def string_write_str(i, fr, st, pc, a, t, fn, r):
+    s = i.read_ptr(st, a[0])
+    i.write_ptr(st, a[0], Opaque("string", (s.data[0] + string_tokens(i, st, a[1]),)))
+    return _ret(i, st, pc, Agg("adt", RESULT, 0, (UNIT,)))
+
+
+def string_from(i, fr, st, pc, a, t, fn, r):
+    return _ret(i, st, pc, Opaque("string", (string_tokens(i, st, a[0]),)))
+
+
+TABLE.update({
+    "std::iter::Iterator::all": generic_all_any,
+    "std::iter::Iterator::any": generic_all_any,
+    "std::iter::Iterator::collect": it_collect_typed,
+    "std::fmt::Write::write_fmt": string_write_fmt,
+    "<std::string::String as std::fmt::Write>::write_str": string_write_str,
+    "<std::string::String as std::fmt::Write>::write_fmt": string_write_fmt,
+    "<std::string::String as std::convert::From<&str>>::from": string_from,
+    "std::string::String::push": string_write_str,
+    "std::option::Option::<T>::unwrap": option_unwrap,
+    "std::result::Result::<T, E>::expect": result_unwrap,
+})
 
 
 def _int_dispatch(path):
